@@ -423,6 +423,11 @@ func Now() time.Time { return time.Unix(1700000000, 0) }
 //gosym:replace os.Getpid
 func Getpid() int { return 4242 }
 
+// the actor is root
+//
+//gosym:replace os.Getuid os.Geteuid os.Getgid os.Getegid syscall.Getuid syscall.Geteuid syscall.Getgid syscall.Getegid
+func GetID() int { return 0 }
+
 // ---------------------------------------------------------------- digests
 
 // The SHA-256 function itself is not encoded: a digest is the byte sequence fed to the hash.
